@@ -332,6 +332,43 @@ pub fn out_rule_for(script: &str, prog: &str, words: &[&[u8]], index: usize, bef
     })
 }
 
+// ------------------------------------------------------------------------------------------------ host directories for bind mounts (C17)
+/// A bind-mount source of a configuration may start with this placeholder: the scenario runner creates a scratch directory on
+/// the host (`make_mount_scratch`), `trun` replaces the placeholder by its path (`LCT_MOUNT_BASE`) before calling
+/// `ContainerConfig::bind_mount`, and the runner renames the path back to `/$S` in the recorded argv. So the source *exists on
+/// the host* when `start_container` runs, and the text docker must receive is the configured text itself.
+pub const MOUNT_PLACEHOLDER: &str = "/$S";
+
+pub fn uses_mount_scratch(ccfgs: &[CCfg]) -> bool { ccfgs.iter().any(|c| c.mounts.iter().any(|(s, _)| s.contains(MOUNT_PLACEHOLDER))) }
+
+/// `<root>/host`: `real/` (with `sub/` and the file `f`), `link -> real`, `via/link2 -> ../real`, `abslink -> <abs>/real`,
+/// `releases/v2/`, `current -> releases/v2`, the file `file`, `flink -> file`, `dangling -> nowhere`. `root` must be canonical.
+pub fn make_mount_scratch(root: &Path) -> PathBuf {
+    use std::os::unix::fs::symlink;
+    let h = root.join("host");
+    for d in ["real/sub", "via", "releases/v2"] { std::fs::create_dir_all(h.join(d)).unwrap(); }
+    std::fs::write(h.join("real/f"), b"x").unwrap();
+    std::fs::write(h.join("file"), b"y").unwrap();
+    symlink("real", h.join("link")).unwrap();
+    symlink("../real", h.join("via/link2")).unwrap();
+    symlink(h.join("real"), h.join("abslink")).unwrap();
+    symlink("releases/v2", h.join("current")).unwrap();
+    symlink("file", h.join("flink")).unwrap();
+    symlink("nowhere", h.join("dangling")).unwrap();
+    h
+}
+
+/// what `trun` hands to `bind_mount` for a configured source: the placeholder replaced by `$LCT_MOUNT_BASE` (when set)
+pub fn mount_source(configured: &str) -> String {
+    match std::env::var("LCT_MOUNT_BASE") { Ok(b) if !b.is_empty() => configured.replace(MOUNT_PLACEHOLDER, &b), _ => configured.to_string() }
+}
+
+/// the scratch directory's path renamed back to the placeholder in a recorded argv word (before `Canon::word`)
+pub fn canon_scratch(w: &[u8], scratch: Option<&Path>) -> Vec<u8> {
+    use std::os::unix::ffi::OsStrExt;
+    match scratch { Some(s) => replace_all(w, s.as_os_str().as_bytes(), MOUNT_PLACEHOLDER.as_bytes()), None => w.to_vec() }
+}
+
 // ------------------------------------------------------------------------------------------------ the case runner
 /// files under `root` as `relpath-hex:content-hex`, sorted by path bytes, joined by `+` (`empty` for none)
 pub fn file_snapshot(root: &Path) -> String {
@@ -408,7 +445,7 @@ fn sibling(name: &str) -> PathBuf { std::env::current_exe().unwrap().parent().un
 /// fields: fixture, bcfgs, ccfgs, tree, injection. Returns the canonical observation.
 pub fn run_scenario_case(fields: &[String]) -> String {
     if fields.len() != 5 { return "bad-op".into(); }
-    let (Some(fixture), Some(bcfgs), Some(_), Some(tree)) = (parse_fixture(&fields[0]), parse_cfg_list(&fields[1], parse_bcfg), parse_cfg_list(&fields[2], parse_ccfg), parse_tree(&fields[3])) else { return "bad-op".into() };
+    let (Some(fixture), Some(bcfgs), Some(ccfgs), Some(tree)) = (parse_fixture(&fields[0]), parse_cfg_list(&fields[1], parse_bcfg), parse_cfg_list(&fields[2], parse_ccfg), parse_tree(&fields[3])) else { return "bad-op".into() };
     let ch = chain(&tree);
     if ch.iter().any(|i| *i >= bcfgs.len()) { return "bad-op".into(); }
     // injection field: `<base>[@<flavour>]`; base = `-` | `z:<k>[:<status>|:sig]` | `nfp:<j>` | `nfd:<j>` | `f:<fault script>` (see `FaultRule`)
@@ -442,6 +479,8 @@ pub fn run_scenario_case(fields: &[String]) -> String {
     write_fixture(&a.join("app"), &fixture);
     std::fs::write(&log, b"").unwrap();
     let before = (file_snapshot(&m), file_snapshot(&a));
+    // (C17) only when a bind-mount source uses the placeholder `/$S`: host directories and symlinks for the sources
+    let scratch = if uses_mount_scratch(&ccfgs) { Some(make_mount_scratch(&root_path)) } else { None };
     for prog in ["docker", "pack"] {
         if gone == Some((prog, 1)) { continue; }
         std::os::unix::fs::symlink(sibling("standin"), bin.join(prog)).unwrap();
@@ -458,6 +497,7 @@ pub fn run_scenario_case(fields: &[String]) -> String {
     if let Some((p, n)) = gone { cmd.env("STANDIN_GONE", format!("{p}:{n}")); }
     if let Some(script) = faults { cmd.env("STANDIN_FAULTS", script); }
     if let Some(o) = outputs { cmd.env("STANDIN_OUTPUTS", o); }
+    if let Some(h) = &scratch { cmd.env("LCT_MOUNT_BASE", h); }
     let mut child = cmd.spawn().unwrap();
     let start = std::time::Instant::now();
     let status = loop {
@@ -479,7 +519,7 @@ pub fn run_scenario_case(fields: &[String]) -> String {
         let mut it = line.split(' ');
         let prog = match it.next() { Some("docker") => "d", Some("pack") => "p", _ => "?" };
         let mut c = prog.to_string();
-        for w in it { let bytes = unhex(w.strip_prefix('h').unwrap_or("zz")).unwrap_or_default(); c.push_str(",h"); c.push_str(&hex(&canon.word(&bytes))); }
+        for w in it { let bytes = canon_scratch(&unhex(w.strip_prefix('h').unwrap_or("zz")).unwrap_or_default(), scratch.as_deref()); c.push_str(",h"); c.push_str(&hex(&canon.word(&bytes))); }
         cmds.push(c);
     }
     let snaps: Vec<String> = std::fs::read_to_string(root_path.join("log.snap")).unwrap_or_default().lines().map(str::to_string).collect();
